@@ -9,7 +9,7 @@ import random
 
 PROP = "C07"
 LEVEL = "exploration"
-N = {"quick": 12000, "thorough": 300000}
+N = {"quick": 60000, "thorough": 1200000}
 RULE = ("at every state of seeded dispatcher histories (flexible, zero durations, irregular): each built-in "
         "filter, 1-2 seeded compositions (names / enums / callables) and available_operations() applied to the "
         "full ready list and to seeded order-preserving sub-lists; result must be a non-empty order-preserving "
